@@ -78,6 +78,7 @@ func c07(c *core.Check) {
 	}
 	orderCheck(c, "order", roots, barriers, table, nil)
 	c.Min("order", 10)
+	c07truncates(c)
 }
 
 // verifyInsertRegPrefixFree re-derives the regular expression of generator.insertReg from constants and
